@@ -30,7 +30,7 @@ func checkC03(c *Ctx) {
 	p := c.P
 	c.Decided = "who may reach the block-signing primitive (only Voter.Vote, only after Voter.Verify on the same proposal); the six gates on every accepting path of Voter.Verify " +
 		"(freshness, vote rule, certificate check, leader, parent link, higher view) with their comparison polarity; lastVotedView written only in Vote (after a successful signature, to the block's view) " +
-		"and StopVoting (monotone); every path of OnLocalTimeout that signs a timeout stops voting for that view."
+		"and StopVoting (monotone); every path of OnLocalTimeout that signs a timeout stops voting for that view. OnValidPropose hands to the aggregator only the certificate of a vote that succeeded."
 	c.NotDec = "semantics of the rulesets' VoteRule (C04) and of certificate verification (C02)."
 	c.Expect("C03.1", 2)
 	c.Expect("C03.5", 6)
